@@ -30,7 +30,8 @@ var vprogs = []vprog{
 func (h *harness) vcompile() error {
 	c := h.c
 	n := 0
-	for ci, cfgc := range colConfigs {
+	batch := jobJ{Kind: "vcbatch"}
+	for _, cfgc := range colConfigs {
 		job := jobJ{Kind: "vc", Scratch: c.Scratch}
 		for i := range cfgc.S {
 			job.Values = append(job.Values, valueZSON(i+1, cfgc.S[i], cfgc.X[i]))
@@ -38,9 +39,20 @@ func (h *harness) vcompile() error {
 		for _, p := range vprogs {
 			job.Programs = append(job.Programs, p.text)
 		}
-		results, _, err := h.runChild(job)
-		if err != nil {
-			return fmt.Errorf("vcompile config %s: %w", cfgc.Name, err)
+		batch.Jobs = append(batch.Jobs, job)
+	}
+	all, _, err := h.runChild(batch)
+	if err != nil {
+		return fmt.Errorf("vcompile: %w", err)
+	}
+	for ci, cfgc := range colConfigs {
+		job := batch.Jobs[ci]
+		results := map[string]evJ{}
+		pre := fmt.Sprintf("%d/", ci)
+		for k, v := range all {
+			if strings.HasPrefix(k, pre) {
+				results[strings.TrimPrefix(k, pre)] = v
+			}
 		}
 		for pi, p := range vprogs {
 			seq, ok1 := results[fmt.Sprintf("%d|seq", pi)]
